@@ -1,5 +1,6 @@
 #!/bin/sh
 # mutall.sh : run every mutant against every property its header lists; print a one-line verdict each (authoring aid).
+(cd /verif/checker && env -u GOWORK GOFLAGS=-mod=mod GOPROXY=off GOSUMDB=off GOTOOLCHAIN=local go build -o ../bin/gonnxcheck .) || exit 2
 cd /verif
 for m in mutants/*.patch; do
   props=$(sed -n 's/^# properties: //p' "$m"); exp=$(sed -n 's/^# expect: //p' "$m")
